@@ -7,6 +7,7 @@
 //! under test is the real vouched_time crate built with hook H3 (observable
 //! stand-ins that pass through to std).
 mod sched;
+mod seq;
 
 use mc_core::*;
 use sched::*;
@@ -399,9 +400,13 @@ fn scenarios(tier: Tier) -> Vec<Scenario> {
 /// C18 clause (ii): `nfs_voucher::get_base_time_unlocked` (and the non-blocking
 /// `observe_file_time`) while another thread is suspended inside the module's own
 /// `BASE_TIME` update, holding the writer lock.
-fn nfs_scenario(k: usize, observer_is_observe: bool, dir: &std::path::Path) -> Result<Vec<Op>, String> {
+fn nfs_scenario(k: usize, observer_is_observe: bool, second: bool, warm: bool, dir: &std::path::Path) -> Result<Vec<Op>, String> {
     use vouched_time::nfs_voucher;
     let path = dir.join("trusted");
+    if warm {
+        // non-initial module state: a registration completed and the base time is no longer the epoch placeholder
+        nfs_voucher::add_trusted_path(dir.join("warm")).map_err(|e| format!("harness: warm-up registration failed: {}", e))?;
+    }
     let ctl = Controller::new(3);
     ctl.install();
     let mut handles: Handles = Vec::new();
@@ -416,6 +421,19 @@ fn nfs_scenario(k: usize, observer_is_observe: bool, dir: &std::path::Path) -> R
             return Err("harness: the suspended add_trusted_path did not settle".to_string());
         }
         let holding = ctl.holder() == Some(ROLE_FROZEN0);
+        if second {
+            // a second registration runs to completion while the first one is suspended
+            let p4 = dir.join("second");
+            handles.push(spawn_role(&ctl, ROLE_COMPLETED, move || {
+                let _ = nfs_voucher::add_trusted_path(p4);
+            }));
+            ctl.grant(ROLE_COMPLETED, UNLIMITED);
+            match ctl.settle(ROLE_COMPLETED, 1000) {
+                Stop::Done => {}
+                Stop::ParkedInLock => return Err("a second add_trusted_path WAITS for the base-time writer lock held by the suspended one".to_string()),
+                other => return Err(format!("harness: the second add_trusted_path stopped at {:?}", other)),
+            }
+        }
         let p3 = path.clone();
         let res: Arc<std::sync::Mutex<Option<bool>>> = Arc::new(std::sync::Mutex::new(None));
         let res2 = res.clone();
@@ -472,47 +490,87 @@ fn nfs_scenario(k: usize, observer_is_observe: bool, dir: &std::path::Path) -> R
     result
 }
 
-fn nfs_clause(ctx: &Ctx, rep: &mut Report) {
-    if !ctx.owns(1) {
-        return;
+/// The module's state (BASE_TIME, TRUSTED_PATHS) is process-global, so every scenario runs in a
+/// fresh child process of this executable.
+fn nfs_child_run(k: usize, observe: bool, second: bool, warm: bool) -> Result<usize, String> {
+    let exe = std::env::current_exe().map_err(|e| format!("harness: current_exe: {}", e))?;
+    let out = std::process::Command::new(exe)
+        .args(["--nfs-child", &k.to_string(), &observe.to_string(), &second.to_string(), &warm.to_string()])
+        .output()
+        .map_err(|e| format!("harness: cannot spawn the scenario child: {}", e))?;
+    let text = String::from_utf8_lossy(&out.stdout);
+    for line in text.lines() {
+        if let Some(n) = line.strip_prefix("NFS-OK ") {
+            return n.trim().parse::<usize>().map_err(|_| "harness: bad child answer".to_string());
+        }
+        if let Some(e) = line.strip_prefix("NFS-ERR ") {
+            return Err(e.to_string());
+        }
     }
+    Err(format!("harness: the scenario child gave no verdict (status {:?})", out.status.code()))
+}
+
+fn nfs_child_main(args: &[String]) -> ! {
+    let k: usize = args[0].parse().unwrap_or(0);
+    let flag = |i: usize| args.get(i).map(|s| s == "true").unwrap_or(false);
     let dir = std::path::PathBuf::from(format!("/tmp/woodpile-c18-{}", std::process::id()));
     let _ = std::fs::remove_dir_all(&dir);
-    if std::fs::create_dir_all(&dir).is_err() {
-        machinery_failure("cannot create the C18 scratch directory");
+    let _ = std::fs::create_dir_all(&dir);
+    let r = match catch(|| nfs_scenario(k, flag(1), flag(2), flag(3), &dir)) {
+        Ok(r) => r,
+        Err(p) => Err(format!("panic: {}", p)),
+    };
+    let _ = std::fs::remove_dir_all(&dir);
+    match r {
+        Ok(ev) => println!("NFS-OK {}", ev.len()),
+        Err(e) => println!("NFS-ERR {}", e.replace('\n', " ")),
     }
-    for round in 0..2 {
-        for k in 0..=12usize {
-            for observe in [false, true] {
-                rep.evaluations += 1;
-                let r = match catch(|| nfs_scenario(k, observe, &dir)) {
-                    Ok(r) => r,
-                    Err(p) => {
-                        Controller::uninstall();
-                        Err(format!("panic: {}", p))
+    std::process::exit(0);
+}
+
+fn nfs_clause(ctx: &Ctx, rep: &mut Report) {
+    let mut unit = 1_000_000usize;
+    for warm in [false, true] {
+        for second in [false, true] {
+            for k in 0..=12usize {
+                for observe in [false, true] {
+                    unit += 1;
+                    if !ctx.owns(unit) {
+                        continue;
                     }
-                };
-                match r {
-                    Ok(events) => {
-                        rep.transitions += events.len() as u64;
-                        rep.count("nfs_unlocked_scenarios", 1);
-                        rep.state(hash_of(&("nfs", round, k, observe)));
-                    }
-                    Err(e) => {
-                        rep.violation(Violation { key: format!("C18:nfs:k={}:observe={}", k, observe), summary: format!("nfs_voucher with add_trusted_path suspended after {} steps: {}", k, e), replay_text: format!("nfs: k={} observe={}\nobserved: {}\n", k, observe, e) });
+                    rep.evaluations += 1;
+                    match nfs_child_run(k, observe, second, warm) {
+                        Ok(events) => {
+                            rep.transitions += events as u64;
+                            rep.count("nfs_unlocked_scenarios", 1);
+                            rep.state(hash_of(&("nfs", warm, second, k, observe)));
+                        }
+                        Err(e) if e.starts_with("harness:") => machinery_failure(&format!("{} (nfs scenario k={} observe={} second={} warm={})", e, k, observe, second, warm)),
+                        Err(e) => {
+                            if nfs_child_run(k, observe, second, warm).is_ok() {
+                                machinery_failure(&format!("C18 nfs violation did not reproduce: k={} observe={} second={} warm={}: {}", k, observe, second, warm, e));
+                            }
+                            rep.violation(Violation {
+                                key: format!("C18:nfs:k={}:observe={}:second={}:warm={}", k, observe, second, warm),
+                                summary: format!("nfs_voucher with add_trusted_path suspended after {} steps{}{}: {}", k, if second { ", a second registration completed meanwhile" } else { "" }, if warm { ", base time already established" } else { ", fresh process" }, e),
+                                replay_text: format!("nfs: k={} observe={} second={} warm={}\nobserved: {}\n", k, observe, second, warm, e),
+                            });
+                        }
                     }
                 }
             }
         }
     }
-    let _ = std::fs::remove_dir_all(&dir);
-    rep.note("clause (ii): nfs_voucher::get_base_time_unlocked and observe_file_time run alone while a thread is suspended after each of the first 13 steps of add_trusted_path's update of the module's BASE_TIME (holding its writer lock for steps 2..): no lock operation / no waiting, at most 4 loads, a checked pair".to_string());
+    rep.note("clause (ii): nfs_voucher::get_base_time_unlocked and observe_file_time run alone while a thread is suspended after each of the first 13 steps of add_trusted_path's update of the module's BASE_TIME (holding its writer lock for steps 2..), in a fresh process and after a completed registration, with and without a second add_trusted_path completing while the first is suspended; every scenario in its own child process (the module state is process-global): no lock operation / no waiting, at most 4 loads, a checked pair".to_string());
 }
 
 fn run(ctx: &Ctx) -> Report {
+    if ctx.prop == "C13" {
+        return seq::run(ctx);
+    }
     let mut rep = Report::new();
     if ctx.prop != "C18" {
-        machinery_failure("abt_freeze serves C18");
+        machinery_failure("abt_freeze serves C18 (suspension schedules) and the sequential clause of C13");
     }
     nfs_clause(ctx, &mut rep);
     let all = scenarios(ctx.tier);
@@ -552,16 +610,15 @@ fn run(ctx: &Ctx) -> Report {
 }
 
 fn replay(_ctx: &Ctx, text: &str) -> Result<String, String> {
+    if field(text, "sequential").is_some() {
+        return seq::replay(text);
+    }
     if let Some(n) = field(text, "nfs") {
         let k: usize = n.split("k=").nth(1).and_then(|x| x.split(' ').next()).and_then(|x| x.parse().ok()).unwrap_or(0);
-        let observe = n.contains("observe=true");
-        let dir = std::path::PathBuf::from(format!("/tmp/woodpile-c18-{}", std::process::id()));
-        let _ = std::fs::create_dir_all(&dir);
-        let r = nfs_scenario(k, observe, &dir);
-        let _ = std::fs::remove_dir_all(&dir);
+        let r = nfs_child_run(k, n.contains("observe=true"), n.contains("second=true"), n.contains("warm=true"));
         return match r {
             Err(e) => Ok(e),
-            Ok(ev) => Err(format!("completed alone: {:?}", ev)),
+            Ok(ev) => Err(format!("completed alone in {} steps", ev)),
         };
     }
     let Some(sc) = field(text, "scenario").and_then(Scenario::parse) else {
@@ -574,10 +631,14 @@ fn replay(_ctx: &Ctx, text: &str) -> Result<String, String> {
 }
 
 fn main() {
+    let args: Vec<String> = std::env::args().collect();
+    if args.get(1).map(|s| s.as_str()) == Some("--nfs-child") {
+        nfs_child_main(&args[2..]);
+    }
     main_entry(Engine {
         name: "abt_freeze",
         level: |_| "model_checking",
-        rule: |_| "explicit enumeration of suspension schedules over real OS threads running the real AtomicBaseTime code: the step hook (H3 observer) holds each writer after exactly k of its stand-in operations (lock, try_lock, each atomic load/store, unlock), the observer then runs alone. Oracles: the observer returns within 64 of its own steps; it is never found inside lock() behind a suspended writer; snapshot performs no lock operation and only as many loads as the writes that completed during its read justify; try_update performs exactly one try_lock, never a blocking lock while a suspended writer holds the lock, returns false unless it acquired the lock; values are whole pairs; after releasing everybody the final value is the maximum accepted. states = distinct scenarios; non-trivial = scenarios in which a suspended writer holds the lock while the observer runs.".into(),
+        rule: |c| if c.prop == "C13" { "exhaustive enumeration of all sequential operation histories (incl. panicking updates that poison the writer lock) up to a depth bound on the real AtomicBaseTime against a reference model".into() } else { "explicit enumeration of suspension schedules over real OS threads running the real AtomicBaseTime code: the step hook (H3 observer) holds each writer after exactly k of its stand-in operations (lock, try_lock, each atomic load/store, unlock), the observer then runs alone. Oracles: the observer returns within 64 of its own steps; it is never found inside lock() behind a suspended writer; snapshot performs no lock operation and only as many loads as the writes that completed during its read justify; try_update never performs a blocking lock while a suspended writer holds the lock and returns false unless it acquired the lock. Values are C13's business and are not judged here. states = distinct scenarios; non-trivial = scenarios in which a suspended writer holds the lock while the observer runs.".into() },
         run,
         replay,
         assumptions: |_| vec![
